@@ -452,11 +452,11 @@ fn main() {
         // do not read for a while: the echo fills the socket buffers and the server's writes stall
         std::thread::sleep(Duration::from_millis(400));
         let mut got = std::mem::take(&mut c.buf);
-        let deadline = Instant::now() + Duration::from_secs(20);
+        let deadline = Instant::now() + Duration::from_secs(90);
         let mut tmp = vec![0u8; 1 << 16];
         let mut reads = 0u64;
         while got.len() < total && Instant::now() < deadline {
-            c.stream.set_read_timeout(Some(Duration::from_secs(3))).ok();
+            c.stream.set_read_timeout(Some(Duration::from_secs(10))).ok();
             match c.stream.read(&mut tmp) {
                 Ok(0) | Err(_) => break,
                 Ok(n) => {
@@ -494,11 +494,13 @@ fn main() {
                 if resp.status == 101 {
                     std::thread::sleep(Duration::from_millis(500));
                     let mut got = std::mem::take(&mut c.buf);
-                    let deadline = Instant::now() + Duration::from_secs(30);
+                    let deadline = Instant::now() + Duration::from_secs(90);
                     let mut tmp = vec![0u8; 1 << 16];
                     let mut reads = 0u64;
                     while got.len() < PUSH_TOTAL + 1000 && Instant::now() < deadline {
-                        c.stream.set_read_timeout(Some(Duration::from_secs(2))).ok();
+                        // after the last byte the server closes the channel (EOF ends the loop); a 10 s
+                        // silence in the middle of the stream is not slowness
+                        c.stream.set_read_timeout(Some(Duration::from_secs(10))).ok();
                         match c.stream.read(&mut tmp) {
                             Ok(0) | Err(_) => break,
                             Ok(n) => {
